@@ -757,3 +757,103 @@ pub fn check_big(c: &BigCase) -> Verdict {
         BigCase::Ml(_) => "multi-layer",
     })
 }
+
+// ------------------------------------------- a plain put that lands during a validating read
+
+/// The harness owns the schedule: at the `inject_at`-th scheduling point the validating read passes
+/// (hook sites between the shared-state accesses of the layers), another thread stores bytes that do
+/// NOT hash to the content key under the same cache key with a plain `put`, and runs to completion.
+/// Whatever the read returns afterwards has to hash to the key it was asked for.
+#[derive(Debug, Clone, Serialize, Deserialize)]
+pub struct RaceCase {
+    pub three: bool,
+    pub ngdp_hooks: bool,
+    pub inject_at: u16,
+    /// what the slowest layer holds beforehand: 0 nothing, 1 the good value, 2 a corrupted copy
+    pub resident: u8,
+    pub len: u32,
+    pub seed: u64,
+}
+
+pub fn race_cases() -> Vec<RaceCase> {
+    let mut v = Vec::new();
+    for three in [false, true] {
+        for ngdp_hooks in [false, true] {
+            for resident in 0u8..3 {
+                for inject_at in 0u16..10 {
+                    v.push(RaceCase { three, ngdp_hooks, inject_at, resident, len: 64 + u32::from(inject_at), seed: 0xace0 + u64::from(inject_at) });
+                }
+            }
+        }
+    }
+    v
+}
+
+pub fn check_race(c: &RaceCase) -> Verdict {
+    use std::sync::atomic::{AtomicBool, AtomicUsize, Ordering};
+    let Ok(dir) = crate::scratch_dir() else { return Verdict::pass().class("VACUOUS") };
+    let rt = rt();
+    let layers = if c.three { 3 } else { 2 };
+    let mut cfg = MultiLayerCacheConfig::new().with_promotion_strategy(PromotionStrategy::Manual);
+    cfg = cfg.add_memory_layer(mem_cfg());
+    if c.three {
+        cfg = cfg.add_memory_layer(mem_cfg());
+    }
+    cfg = cfg.add_disk_layer(disk_cfg(dir.path()));
+    let cache = {
+        let _g = rt.enter();
+        let Ok(mut cache) = MultiLayerCacheImpl::<SKey>::new(cfg) else { return Verdict::pass().class("VACUOUS") };
+        let hooks: Arc<dyn ValidationHooks> = if c.ngdp_hooks { Arc::new(NgdpValidationHooks::new()) } else { Arc::new(Md5ValidationHooks::new()) };
+        cache.set_validation_hooks(Some(hooks));
+        Arc::new(cache)
+    };
+    let good = Rng::new(c.seed).bytes(c.len.max(1) as usize);
+    let mut bad = good.clone();
+    bad[0] ^= 0x40;
+    let ck = md5(&good);
+    let name = SKey(hex::encode(ck));
+    match c.resident {
+        1 => {
+            let _ = rt.block_on(cache.put_to_layer(name.clone(), Bytes::copy_from_slice(&good), layers - 1));
+        }
+        2 => {
+            let _ = rt.block_on(cache.put_to_layer(name.clone(), Bytes::copy_from_slice(&bad), layers - 1));
+        }
+        _ => {}
+    }
+    let seen = Arc::new(AtomicUsize::new(0));
+    let injected = Arc::new(AtomicBool::new(false));
+    let (seen2, injected2, cache2, name2, bad2) = (Arc::clone(&seen), Arc::clone(&injected), Arc::clone(&cache), name.clone(), bad.clone());
+    let at = usize::from(c.inject_at);
+    cascette_cache::verif_hooks::set_sched(Some(Arc::new(move |_site| {
+        let n = seen2.fetch_add(1, Ordering::SeqCst);
+        if n == at && !injected2.swap(true, Ordering::SeqCst) {
+            let (cache3, name3, bad3) = (Arc::clone(&cache2), name2.clone(), bad2.clone());
+            // another thread (no scheduling callback of its own) runs the put to completion
+            let _ = std::thread::spawn(move || {
+                let rt2 = tokio::runtime::Builder::new_current_thread().enable_all().build().expect("runtime");
+                let _ = rt2.block_on(cache3.put(name3, Bytes::from(bad3)));
+            })
+            .join();
+        }
+    })));
+    let got = rt.block_on(cache.get_with_validation(&name, Some(ContentKey::from_bytes(ck))));
+    cascette_cache::verif_hooks::set_sched(None);
+    let sites = seen.load(Ordering::SeqCst);
+    let did = injected.load(Ordering::SeqCst);
+    let v = Verdict::pass().nontrivial(did).class_if(did, "put-landed-during-the-validating-read").class_if(!did, "read-passed-fewer-scheduling-points");
+    match got {
+        Ok(Some(b)) if md5(b.as_ref()) != ck => Verdict::fail(
+            "C07:multi-layer:get_with_validation-returns-bytes-not-matching-key:put-during-the-read",
+            format!(
+                "{layers} layers, slowest layer held {}: a plain put of {} bytes not matching the content key landed at scheduling point #{at} of {sites} the read passed; get_with_validation returned {} bytes whose MD5 is {}, asked for {}",
+                ["nothing", "the good value", "a corrupted copy"][usize::from(c.resident % 3)],
+                bad.len(),
+                b.len(),
+                hex::encode(md5(b.as_ref())),
+                hex::encode(ck)
+            ),
+        ),
+        _ => v,
+    }
+}
